@@ -977,6 +977,57 @@ CONFIG["C20"] = dict(
     assumptions=["metrics are the observable (as the statement says)"],
 )
 
+def _c14_nontrivial(r):
+    if r["op"].startswith("stress-"):
+        return r["impl"].startswith("ok")
+    return _sim_nontrivial(r)
+
+
+def _c14_extra(recs):
+    import re as _re
+    e = _sim_extra([r for r in recs if r["op"].startswith("sim")])
+    tot = dict(calls=0, values=0, closed=0, blocked=0, panics=0)
+    runs = 0
+    for r in recs:
+        if r["op"].startswith("stress-"):
+            runs += 1
+            for k in tot:
+                m = _re.search(r"\b%s=(\d+)" % k, r.get("meas", ""))
+                if m:
+                    tot[k] += int(m.group(1))
+    e.update(real_thread_runs=runs, real_thread_calls=tot["calls"], real_thread_replies_with_value=tot["values"],
+             real_thread_replies_closed=tot["closed"], real_thread_blocked=tot["blocked"], real_thread_panics=tot["panics"])
+    return e
+
+
+CONFIG["C14"] = dict(
+    modules=["Mdns.Props.C14"],
+    model_files="Mdns/Model/Shutdown.lean",
+    nontrivial=_c14_nontrivial,
+    extra_evidence=_c14_extra,
+    rule="(a) `sim C14` bursts on real daemon threads under the simulation seams: a responder daemon with 2-5 registered "
+         "services (probing / announced), browses and a hostname resolution of its own, then a queue of 0-4 commands "
+         "(get_metrics, status, unregister known/unknown, browse, resolve_hostname, stop_browse, monitor, verify, register, a "
+         "second shutdown) with the shutdown at every position (quick: first, last and sampled middle positions; thorough: all), "
+         "processed in ONE loop iteration, followed by calls of every kind on the handle of the daemon that is gone; "
+         "(b) `stress-shutdown` runs on REAL threads without simulation: 2-6 client threads x 20-50 random calls while another "
+         "thread shuts down, a 4 s watchdog on every reply receiver and a 12 s watchdog on every thread. Non-trivial = sim "
+         "history with packets and events / stress run completed. Distinct = distinct scripts / seeds.",
+    level_text="Queue model (every queue, every position of the shutdown): shutdown_contract (commands in front executed; goodbye "
+               "for every registered service; SearchStopped on every open search; every command behind has its reply channel "
+               "closed; Shutdown to the caller; thread ends), every_reply_settled, cleanup_once, running_loop_never_ends, "
+               "calls_after_end are Lean theorems. The monitor evaluates exactly these conclusions on the real traces of the "
+               "bursts (goodbye packets decoded from the wire, channel values / closures, results of calls after the end) and "
+               "no-panic / no-blocked / nothing-succeeds-after-Shutdown on the real-thread runs.",
+    level_note="Trusted: Lean kernel; allowed axioms only; simulation seams. PARTIAL BY NATURE: OS-thread interleavings, the flume "
+               "channel and blocking recv are runtime behaviour the model cannot exhibit; the real-thread runs are stress tests "
+               "(support, not proof). A residual window of a few instructions between the drain of the queue and the drop of the "
+               "receiver remains in the repaired code (a command enqueued exactly there is never answered nor closed).",
+    partial=["the queue model is compared with the code through the monitor's clauses on the bursts, not by a full prediction of the trace",
+             "real-thread clause: stress runs only"],
+    assumptions=["services count as announced when the daemon's own Announce event was seen"],
+)
+
 # C19 = component level (delay arithmetic, `backoff` ops) + daemon level (scheduler model, `sim` histories)
 _c19_comp = CONFIG["C19"]
 CONFIG["C19"] = dict(
